@@ -2929,6 +2929,11 @@ def groupby_reduce(
 
         method = _choose_method(method, preferred_method, agg, by_, nax)
 
+        if method == "blockwise" and any(0 in array.chunks[ax] for ax in axis_):
+            # zero-length blocks hold no group: drop them (their empty label lists would become zero-size chunks of the
+            # result, which dask cannot index in the final reindex)
+            array = array.rechunk({ax: tuple(c for c in array.chunks[ax] if c > 0) for ax in axis_})
+
         if method == "blockwise" and not any_by_dask and by_.shape != array.shape[-by_.ndim :]:
             # size-1 dimensions of `by`: the per-block label lists need the labels of every block
             by_ = np.broadcast_to(by_, array.shape[-by_.ndim :])
